@@ -254,6 +254,26 @@ func (vd *Validator) Valid(s M, v any) (ok bool, amb bool) {
 				}
 				continue
 			}
+			if pp, has := s["patternProperties"].(M); has {
+				matched := false
+				for pat, sub := range pp {
+					re, err := regexp.Compile(pat)
+					if err != nil {
+						return false, true
+					}
+					if re.MatchString(k) {
+						matched = true
+						o, a := vd.Valid(sub.(M), e)
+						amb = amb || a
+						if !o {
+							return false, amb
+						}
+					}
+				}
+				if matched {
+					continue
+				}
+			}
 			switch ap := s["additionalProperties"].(type) {
 			case bool:
 				if !ap {
